@@ -267,6 +267,26 @@ func v14GenCfg(t *rapid.T, hintLen int) v14Cfg {
 	}
 }
 
+// v14GenAnyCfg: every option combination (both set, only min, only max, neither), values below / at /
+// above the documented defaults (512 / 1200) and the legal bounds (1 / 2048), including illegal ones.
+func v14GenAnyCfg(t *rapid.T) v14Cfg {
+	side := func(label string) int {
+		return rapid.OneOf(
+			rapid.Just(0), // unset
+			rapid.SampledFrom([]int{-1, 1, 12, 13, 14, 100, 511, 512, 513, 800, 1199, 1200, 1201, 1400, 2047, 2048, 2049, 4000}),
+			rapid.IntRange(1, 2048),
+		).Draw(t, label)
+	}
+	return v14Cfg{side("optMin"), side("optMax")}
+}
+
+// valid says whether the options describe a usable range by the documented rules:
+// 0 means default (512 / 1200), and then 1 <= min <= max <= 2048.
+func (c v14Cfg) valid() bool {
+	lo, hi := c.effective()
+	return c.min >= 0 && c.max >= 0 && lo >= 1 && lo <= hi && hi <= 2048
+}
+
 func v14GenPktLen(t *rapid.T) int {
 	return rapid.OneOf(
 		rapid.SampledFrom([]int{1, 2, 3, 7, 8, 9, 15, 16, 17, 1187, 1188, 1200, 1252, 1499, 1500}),
@@ -336,14 +356,30 @@ func TestVerifC14_Send(t *testing.T) {
 		for i := range lens {
 			lens[i] = v14GenPktLen(rt)
 		}
-		cfg := v14GenCfg(rt, lens[0])
+		var cfg v14Cfg
+		if rapid.IntRange(0, 2).Draw(rt, "anyCfg") == 0 {
+			cfg = v14GenAnyCfg(rt)
+		} else {
+			cfg = v14GenCfg(rt, lens[0])
+		}
 		lo, hi := cfg.effective()
+		oneSided := (cfg.min == 0) != (cfg.max == 0)
 		fake := &v14Fake{local: &net.UDPAddr{IP: net.IPv4(10, 14, 0, 1), Port: 1}}
 		g, err := WrapPacketConnGecko(fake, GeckoOptions{Password: key, MinPacketSize: cfg.min, MaxPacketSize: cfg.max})
 		if err != nil {
-			rt.Fatalf("C14 send: valid options min=%d max=%d refused: %v", cfg.min, cfg.max, err)
+			if cfg.valid() {
+				rt.Fatalf("C14 send: valid options min=%d max=%d (effective [%d,%d]) refused: %v", cfg.min, cfg.max, lo, hi, err)
+			}
+			// an unusable configuration was rejected: nothing can be emitted outside a range
+			st.Case(false, fmt.Sprintf("rejected/%d/%d", cfg.min, cfg.max), []string{"cfg-rejected"}, func() string {
+				return fmt.Sprintf("options min=%d max=%d (effective [%d,%d]) rejected: %v", cfg.min, cfg.max, lo, hi, err)
+			})
+			return
 		}
 		defer g.Close()
+		// accepted: the effective range [min or 512, max or 1200] is what every datagram that can fit must respect;
+		// an accepted configuration whose effective range is empty is reported after the writes (with the datagrams, if any fit)
+
 		nw := rapid.IntRange(64, 96).Draw(rt, "writes")
 		shortEvery := rapid.IntRange(2, 9).Draw(rt, "shortEvery")
 		seed := rapid.Uint32().Draw(rt, "contentSeed")
@@ -360,6 +396,9 @@ func TestVerifC14_Send(t *testing.T) {
 			sort.Strings(cl)
 			if lo == hi {
 				cl = append(cl, "min==max")
+			}
+			if oneSided {
+				cl = append(cl, "one-sided-options")
 			}
 			if fits == 0 {
 				cl = append(cl, "nothing-fits")
@@ -411,6 +450,9 @@ func TestVerifC14_Send(t *testing.T) {
 				}
 				rt.Fatalf("C14 send: packet of %d bytes, min=%d max=%d, write #%d, wire sizes %v: %v", len(keep), lo, hi, w, sz, cerr)
 			}
+		}
+		if lo > hi {
+			rt.Fatalf("C14 send: options min=%d max=%d were accepted although the effective range [%d,%d] (0 = default 512/1200) is empty: no datagram can lie inside it", cfg.min, cfg.max, lo, hi)
 		}
 	})
 }
